@@ -212,7 +212,7 @@ def pauli_walk(model: Model, rep: Report):
     f = P.resolve("construct")
     ev = Evaluator(model, inline_methods=False)
     # the block splitter is a generator that is read on its own (above); here it stays a call
-    ps = PathEnumerator(ev, no_inline=("PauliAdditiveCircuitNoiseFactory.split_instruction_blocks",)).function_paths(f, self_cls=P)
+    ps = PathEnumerator(ev, no_inline=("PauliAdditiveCircuitNoiseFactory.split_instruction_blocks", "PauliAdditiveCircuitNoiseFactory.get_pauli_error")).function_paths(f, self_cls=P)
     s = sym(f.self_name)
     circ, settings = sym(f.param_names[1]), sym(f.param_names[2])
     construct = "PauliAdditiveCircuitNoiseFactory.construct"
